@@ -11,6 +11,7 @@ for pid in ids:
     if pid not in PROPS:
         continue
     c = PROPS[pid]
+    assert c["level"] in ("exploration", "fault_enumeration", "model_checking", "proof", "translation_validation", "other"), (pid, c["level"])
     checks.append({
         "property_id": pid,
         "quick_cmd": f"./run.sh quick {pid}",
@@ -44,3 +45,15 @@ m = {
 }
 json.dump(m, open(os.path.join(ROOT, "MANIFEST.json"), "w"), indent=1)
 print("checks:", [c["property_id"] for c in checks], "not_applicable:", len(na))
+
+# validate against the published schema when a validator is available
+try:
+    import subprocess
+    r = subprocess.run(["python3-vt", "-c", "import json,jsonschema,sys; jsonschema.validate(json.load(open(sys.argv[1])), json.load(open(sys.argv[2])))",
+                        os.path.join(ROOT, "MANIFEST.json"), "/root/.vp/MANIFEST.schema.json"], capture_output=True, text=True)
+    if r.returncode != 0:
+        print("MANIFEST.json does NOT validate:", r.stderr[-800:])
+        sys.exit(1)
+    print("MANIFEST.json validates against the schema")
+except FileNotFoundError:
+    pass
